@@ -57,3 +57,23 @@ Definition sort_by_key_pull (key : val -> val) (items : list val) : list val := 
 Definition sort_by_key_push_step (buf : list val) (x : val) : list val * list val := (buf ++ [x], []).
 Definition sort_by_key_push_fin (key : val -> val) (buf : list val) : list val * list val :=
   ([], isort_by key buf).
+
+(* ---- reduce_no_replay (reduce_no_replay.rs): state = accumulator (None = [] / Some a = [a]).
+   pull: drain with `__was_updated = true` per item, then emit the accumulator if it was updated
+   or this is tick 0.
+   push: push::reduce_ref whose closure sets the `was_updated` cell, then filter on
+   `was_updated || tick 0`; but ReduceState::accumulate stores the FIRST item into an empty
+   accumulator WITHOUT calling the closure, so the cell is not set by that item. *)
+Definition reduce_nr_pull (f : val -> val -> val) (tick0 : bool) (acc : list val) (items : list val)
+  : list val * list val :=
+  let acc' := fold_left (reduce_ins f) items acc in
+  (acc', if (match items with [] => false | _ => true end) || tick0 then acc' else []).
+
+Definition reduce_nr_push_step (f : val -> val -> val) (s : list val * bool) (x : val)
+  : (list val * bool) * list val :=
+  match fst s with
+  | [] => (([x], snd s), [])                 (* None => *accum = Some(item): the closure is not called *)
+  | a :: _ => (([f a x], true), [])          (* Some(acc) => closure: was_updated.set(true); func(acc, item) *)
+  end.
+Definition reduce_nr_push_fin (tick0 : bool) (s : list val * bool) : (list val * bool) * list val :=
+  (s, if snd s || tick0 then fst s else []).
